@@ -423,9 +423,10 @@ class IncludedServiceDeclaration(Attribute):
     service: Service
 
     def __init__(self, service: Service) -> None:
-        declaration_bytes = struct.pack(
-            '<HH2s', service.handle, service.end_group_handle, bytes(service.uuid)
-        )
+        declaration_bytes = struct.pack('<HH', service.handle, service.end_group_handle)
+        # The service UUID is only present when it is a 16-bit UUID
+        if len(uuid_bytes := service.uuid.to_bytes()) == 2:
+            declaration_bytes += uuid_bytes
         super().__init__(
             GATT_INCLUDE_ATTRIBUTE_TYPE, Attribute.READABLE, declaration_bytes
         )
